@@ -280,6 +280,32 @@ pub fn diverge_block(edit: impl Strategy<Value = Edit> + Clone) -> impl Strategy
         })
 }
 
+/// "Reject and rewrite": an agent adds lines, a person touches something else in the file,
+/// throws everything the agent wrote away and types their own lines at the same place.
+/// `checkpoints` bit i set => an explicit human checkpoint after the i-th human step.
+pub fn reject_and_rewrite_block() -> impl Strategy<Value = Vec<HOp>> {
+    (gen::ai_actor(), 0u8..3, any::<u16>(), gen::line_specs(4), any::<u16>(), gen::line_specs(4), 0u8..8, proptest::bool::weighted(0.8)).prop_map(
+        |(ai, file, pos, ai_lines, other, human_lines, checkpoints, commit)| {
+            let mut v = vec![HOp::Edit { actor: ai, file, edit: Edit::Insert { pos, lines: ai_lines } }];
+            let steps = [
+                Edit::TokenAppend { pos: other },
+                Edit::DeleteAgentLines,
+                Edit::Insert { pos, lines: human_lines },
+            ];
+            for (i, e) in steps.into_iter().enumerate() {
+                v.push(HOp::Edit { actor: Actor::Human, file, edit: e });
+                if checkpoints & (1 << i) != 0 {
+                    v.push(HOp::HumanCheckpoint { file });
+                }
+            }
+            if commit {
+                v.push(HOp::Commit);
+            }
+            v
+        },
+    )
+}
+
 /// The everyday rewrite shape: a topic branch of 2-4 small commits (each 1-2 edits by
 /// people and agents, often on the same file), an upstream that moved on by 1-2 commits,
 /// and then - immediately - one rewriting operation applied to exactly that shape.
@@ -391,6 +417,8 @@ pub struct OpOutcome {
     pub ok: bool,
     pub conflicted: bool,
     pub aborted: bool,
+    /// number of commits a rebase / cherry-pick set out to re-create
+    pub rewritten: u32,
 }
 
 pub struct Engine {
@@ -1269,7 +1297,7 @@ impl Engine {
 
     pub fn run_op(&mut self, op: &HOp, rep: &mut CaseReport) -> OpOutcome {
         let kind = op.kind();
-        let mut out = OpOutcome { kind, class: OpClass::Neutral, ok: true, conflicted: false, aborted: false };
+        let mut out = OpOutcome { kind, class: OpClass::Neutral, ok: true, conflicted: false, aborted: false, rewritten: 0 };
         if matches!(self.forced_layout, Some(2) | Some(3))
             && self.known_taint.is_none()
             && matches!(
@@ -1721,6 +1749,7 @@ impl Engine {
                     out.class = OpClass::Skipped;
                     return out;
                 }
+                out.rewritten = ahead;
                 let viol_before = rep.violations.len();
                 // F41 shape: a squash/fixup rebase onto a branch that already holds cherry-picked
                 // copies of commits from the range being rebased
@@ -1741,8 +1770,30 @@ impl Engine {
                     }
                     other => {
                         if *other == RebaseKind::Reorder && ahead >= 2 && self.known_taint.is_none() {
-                            // F32: notes follow the commits by position, not by identity
-                            self.set_taint("rebase-reorder-maps-notes-by-position", rep);
+                            // F32: when the reordered commits touch a common file their notes end
+                            // up on the wrong rewritten commits (reordering commits that touch
+                            // disjoint files is handled correctly and stays strict)
+                            let commits: Vec<String> = self.w.rgit(&["rev-list", &format!("{t}..HEAD")]).out().lines().map(|l| l.trim().to_string()).collect();
+                            let mut seen: BTreeSet<String> = BTreeSet::new();
+                            let mut shared = false;
+                            for c in &commits {
+                                let files = self.w.rgit(&["diff-tree", "--no-commit-id", "--name-only", "-r", "-z", c]);
+                                for f in files.stdout.split(|b| *b == 0).filter(|f| !f.is_empty()) {
+                                    if !seen.insert(format!("{c}:{}", String::from_utf8_lossy(f))) {
+                                        continue;
+                                    }
+                                    let name = String::from_utf8_lossy(f).into_owned();
+                                    if commits.iter().any(|o| o != c && seen.contains(&format!("{o}:{name}"))) {
+                                        shared = true;
+                                    }
+                                }
+                            }
+                            if shared {
+                                rep.class("reorder-of-commits-sharing-a-file");
+                                self.set_taint("rebase-reorder-maps-notes-by-position", rep);
+                            } else {
+                                rep.class("reorder-of-commits-on-disjoint-files");
+                            }
                         }
                         let script = self.write_seq_script(*other);
                         self.w.git_env(&["rebase", "-i", &t], &[("GIT_SEQUENCE_EDITOR", &script), ("GIT_EDITOR", "true")])
@@ -1829,6 +1880,7 @@ impl Engine {
                 };
                 let avail = self.w.rgit(&["rev-list", "--count", &format!("HEAD..{b}")]).out_trim().parse::<u32>().unwrap_or(0);
                 let n = (*count as u32).clamp(1, avail.clamp(1, 4));
+                out.rewritten = n;
                 let viol_before = rep.violations.len();
                 let snap = self.checks.preservation.then(|| self.ai_snapshot());
                 let src_snap: Option<BTreeMap<String, String>> = None;
@@ -2007,6 +2059,23 @@ impl Engine {
                 if merges > 0 {
                     out.class = OpClass::Skipped;
                     return out;
+                }
+                // F43: working logs are keyed by base commit only. If the reset target already has
+                // a working log with checkpoints (work done - and perhaps undone - while another
+                // branch sat on that commit), the reset merges its reconstructed attribution
+                // with those stale entries.
+                if let Some(target) = self.w.rev(&format!("HEAD~{k}")) {
+                    // (a clean switch carries the log along to the branch being reset, so the
+                    // current HEAD's log counts as well; the tree is clean here - autocommit above)
+                    let head = self.w.head();
+                    let leftover = [target, head].iter().any(|c| {
+                        let j = self.w.repo.join(".git/ai/working_logs").join(c).join("checkpoints.jsonl");
+                        std::fs::metadata(&j).map(|m| m.len() > 0).unwrap_or(false)
+                    });
+                    if leftover {
+                        rep.class("reset-onto-commit-with-leftover-working-log");
+                        self.set_taint("reset-onto-commit-with-leftover-working-log-inherits-stale-attribution", rep);
+                    }
                 }
                 let snap = self.checks.preservation.then(|| self.ai_snapshot());
                 let o = self.w.git(&["reset", if soft { "--soft" } else { "--mixed" }, "-q", &format!("HEAD~{k}")]);
